@@ -8,7 +8,7 @@ name=$1; wt=$2; chk=$3; tier=${4:-quick}
 out=/verif/seeded/$name
 mkdir -p $out && cp -r $wt/_out/patch.diff $wt/_out/demo $wt/_out/meta.json $out/ 2>/dev/null
 cd $wt || exit 2
-pkgs=$(grep '^+++ b/' $out/patch.diff | sed 's#+++ b/##' | xargs -n1 dirname | sort -u)
+pkgs=$(grep "^+++ b/" $out/patch.diff | sed "s#+++ b/##" | grep "\.go$" | xargs -n1 dirname | sort -u)
 demo=$(ls $out/demo/*_test.go 2>/dev/null | head -1)
 log=$out/confirm.log; : > $log
 run_demo() { # $1 = package dir
